@@ -427,7 +427,7 @@ def bind_all(traces, d, rng, th):
     out = {}
     for model in trace_i.MODELS:
         cand = [t for t in traces if trace_i.eligible(model, t)]
-        lim = 2000 if th else 100
+        lim = 600 if th else 100
         sample = cand if len(cand) <= lim else rng.sample(cand, lim)
         if sample:
             acc, rej, res = trace_i.bind(model, sample, d)
